@@ -10,7 +10,8 @@
    byte-exact generator correspondence and judged on the reference machine. *)
 From Coq Require Import ZArith List String Bool.
 From Gigue Require Import Types Bits Isa Enc GenTables Builder BuilderTies Samplers Generator Machine MachineLemmas
-  SplitProofs FragProofs GenLemmas ImageSem CtorSpec C12Defs C12Proofs GenWF GenWFProps Witness.
+  SplitProofs FragProofs GenLemmas ImageSem CtorSpec C12Defs C12Proofs GenWF GenWFProps
+  BodyExec FrameExec CodeMem GenWF5 GenWF6 CallFrame MethodContract CallFrameRimi MethodContractRimi Witness.
 Import ListNotations.
 Open Scope Z_scope.
 
@@ -24,6 +25,60 @@ Theorem C09_no_ra_on_main_stack : forall c script img, successful c script img -
   (c_variant c = GRimiSS \/ c_variant c = GRimiFull) ->
   Forall (fun m => Forall (fun g => ra_on_main g = false) (m_instrs m)) (im_methods img).
 Proof. exact rimi_methods_no_ra_on_main. Qed.
+
+(* PROVED (Layer B), both RIMI variants: THE METHOD CONTRACT ALONG THE CALL GRAPH
+   (MethodContractRimi.every_rimi_method_returns).  For every accepted
+   configuration, decision script and emitted image, with the image's words
+   loaded at the recorded addresses (code region < 2 GiB; data, stack and
+   shadow-stack regions pairwise disjoint and disjoint from it; methods on the
+   JIT side), EVERY method, of any call depth, entered at its first instruction
+   with sp 8-aligned and need_method bytes of main stack below it, t3 8-aligned
+   with ss_need bytes of shadow stack below it (8 per call-making method on the
+   deepest chain below this method: "within its capacity"), in the JIT domain for
+   RIMI full, is executed by the machine - fetching and decoding the emitted
+   bytes - with, recursively, all its callees, WITHOUT ANY FAULT, in exactly
+   steps_method steps, and returns to ra:
+     - call-making methods push ra with sst through t3 and pop it with lst: the
+       pushes and pops are LIFO-matched, ONE slot per live call-making method,
+       all inside the shadow window [t3 - ss_need, t3) (the machine's AShadow
+       accessor faults outside the shadow region: no fault occurs);
+     - t3 (not a usable register: `wr c 28 = false`), sp, s0, ra, the data
+       register and every non-usable register hold their entry values on return;
+     - memory changes only inside the data image, the main-stack window
+       [sp - need, sp) and the shadow window; dom and the CFI stack unchanged.
+   No return address of a JIT method is written to or read from the main stack
+   (C09_no_ra_on_main_stack); the return target of a call-making method is the
+   content of its shadow slot (next theorem).
+   `_partial`: the interpreter loop / trampolines are not composed (whole image),
+   and the corruption clause is stated for one return (next theorem), not as a
+   two-run statement. *)
+Theorem C09_every_rimi_method_contract_partial : forall c script img,
+  successful c script img -> rimi c ->
+  forall L, rplaced c img L ->
+  forall id m, nth_error (im_methods img) id = Some m ->
+  rcontract c img L (need_method c (im_methods img) (max_depth (im_methods img)) id)
+            (ss_need (im_methods img) (max_depth (im_methods img)) id)
+            (steps_method (im_methods img) (max_depth (im_methods img)) id) m.
+Proof. exact every_rimi_method_returns. Qed.
+
+(* PROVED (machine level, every state): the return of a RIMI call-making method
+       ld s0,0(sp) ; addi sp,sp,24 ; lst ra,0(t3) ; addi t3,t3,8 ; ret
+   goes to the content `rae` of its SHADOW slot, whatever the main stack holds
+   (the only main-stack value read is the s0 slot, which does not influence
+   control): corrupting the method's main-stack frame cannot redirect its return. *)
+Theorem C09_return_target_is_shadow_slot_partial : forall v L,
+  (code_hi L <= stk_lo L \/ stk_hi L <= code_lo L) -> (code_hi L <= ss_lo L \/ ss_hi L <= code_lo L) ->
+  forall s A S P s0e rae,
+  pc s = A -> rget s 2 = S - 24 -> rget s 28 = P - 8 ->
+  S mod 8 = 0 -> 24 <= S < W64 -> stk_lo L <= S - 24 -> S <= stk_hi L ->
+  P mod 8 = 0 -> 8 <= P < W64 -> ss_lo L <= P - 8 -> P <= ss_hi L ->
+  load_bytes (mem s) (S - 24) 8 = s0e -> load_bytes (mem s) (P - 8) 8 = rae ->
+  0 <= s0e < W64 -> 0 <= rae < W64 ->
+  exists s', exec_at v L A rimi_call_epi s = Next s' /\ pc s' = (u64 (rae + 0) / 2) * 2 /\
+    rget s' 2 = S /\ rget s' 28 = P /\ rget s' 8 = s0e /\ rget s' 1 = rae /\
+    (forall r, 0 <= r -> r <> 1 -> r <> 2 -> r <> 8 -> r <> 28 -> rget s' r = rget s r) /\
+    mem s' = mem s /\ dom s' = dom s /\ cfi s' = cfi s.
+Proof. exact rimi_call_epi_exec. Qed.
 
 Theorem C09_nonvacuous :
   (exists img, successful wcfg_rimiss wscript_rimiss img) /\ (exists img, successful wcfg_rimifull wscript_rimifull img).
@@ -66,6 +121,8 @@ Theorem C09_calls_do_not_read_stack_partial : forall v L s A off,
 Proof. exact method_base_call_reaches. Qed.
 
 Print Assumptions C09_no_ra_on_main_stack.
+Print Assumptions C09_every_rimi_method_contract_partial.
+Print Assumptions C09_return_target_is_shadow_slot_partial.
 Print Assumptions C09_nonvacuous.
 Print Assumptions C09_shadow_discipline_partial.
 Print Assumptions C09_registers_reserved_partial.
